@@ -38,6 +38,19 @@ def apply(repo, m):
     edits = m['edits'] if 'edits' in m else [m]
     saved = {}
     for e in edits:
+        if 'patch' in e:
+            # a whole patch file (relative to /verif) as the base of the mutant, e.g. a behaviour-preserving refactoring from benign/
+            import re
+            pf = os.path.join(VERIF, e['patch'])
+            for f in re.findall(r'^\+\+\+ b/(\S+)', open(pf).read(), re.M):
+                fp = os.path.join(repo, f)
+                saved.setdefault(fp, open(fp).read())
+            r = subprocess.run(['patch', '-p1', '-s', '--no-backup-if-mismatch', '-i', pf], cwd=repo, stdout=subprocess.PIPE, stderr=subprocess.STDOUT, text=True)
+            if r.returncode:
+                for p2, s2 in saved.items():
+                    open(p2, 'w').write(s2)
+                raise LookupError('mutant %s: patch %s does not apply: %s' % (m.get('id'), e['patch'], r.stdout[:200]))
+            continue
         p = os.path.join(repo, e['file'])
         s = open(p).read()
         saved.setdefault(p, s)
